@@ -44,6 +44,11 @@ func (e *kvElection) watchLoop(ctx context.Context) {
 		case <-ctx.Done():
 			return
 		case entry, ok := <-updates():
+			// select picks at random among the ready cases: an ended run handles no
+			// further notification and makes no further check.
+			if ctx.Err() != nil {
+				return
+			}
 			if !ok {
 				log := e.getLogger()
 				log.Debug("watch_closed",
@@ -59,6 +64,9 @@ func (e *kvElection) watchLoop(ctx context.Context) {
 			}
 			e.handleWatchEvent(entry)
 		case <-checkTicker.C:
+			if ctx.Err() != nil {
+				return
+			}
 			// Periodic check: if we're a follower and key doesn't exist, trigger re-election
 			// This handles cases where NATS watchers don't send deletion events
 			if !e.IsLeader() {
@@ -71,7 +79,7 @@ func (e *kvElection) watchLoop(ctx context.Context) {
 // checkKeyAndReelect checks if the key exists and triggers re-election if it doesn't.
 // This is a fallback for cases where NATS watchers don't reliably send deletion events.
 func (e *kvElection) checkKeyAndReelect(ctx context.Context) {
-	if e.IsLeader() {
+	if ctx.Err() != nil || e.IsLeader() {
 		return
 	}
 
